@@ -9,8 +9,9 @@
 (* Initialiser i:  InitCall(i, kind) -> TrySet(i) -> InitRet(i, result).   *)
 (*   TrySet is the single atomic step of the design (OnceLock::set): the   *)
 (*   first one installs its configuration, every later one loses and its   *)
-(*   components are dropped unused.  kind "init_slot" panics on a loss,    *)
-(*   "try_init_slot" / "init" return None.                                 *)
+(*   components are dropped unused.  The kinds that hand back the handle   *)
+(*   directly (init_slot, init, init_internal) panic on a loss, the try_   *)
+(*   forms and the slots' own init return None (see RetOf).                *)
 (* Observer o:  ObsCall(o, op) -> Read(o) -> ObsRet(o, ...).               *)
 (*   Read is one atomic read of the slot (AmbientSlot::get / is_enabled);  *)
 (*   everything the operation then does uses the runtime it read.          *)
@@ -28,7 +29,7 @@ EXTENDS Naturals, FiniteSets, Sequences, TLC
 CONSTANTS
     Inits,        \* initialiser tags (positive integers)
     Observers,    \* observer ids
-    InitKinds,    \* subset of {"try_init_slot", "init", "init_slot"}
+    InitKinds,    \* subset of PanickingKinds \cup TryKinds (below)
     ObsOps,       \* subset of {"is_enabled", "emit", "span", "flush", "probe"}
     MaxObs,       \* operations per observer
     Design        \* "oncelock" | "percomponent" | "twostep" | "lastwins"
@@ -102,8 +103,22 @@ Publish(i) ==
     /\ ipc' = [ipc EXCEPT ![i] = "attempted"]
     /\ UNCHANGED <<flag, ikind, ires, iret, opc, oop, oread, ocount, omust, seenEnabled, obsLog>>
 
+\* Every public way of initialising a slot.  The forms that return the handle directly
+\* panic when they lose; the try_ forms and the slots' own init return None.
+\*   a slot of one's own: Setup::try_init_slot / init_slot, AmbientSlot::init ("slot_init")
+\*   the shared slot:     Setup::try_init / init
+\*   the internal slot:   Setup::try_init_internal / init_internal,
+\*                        AmbientInternalSlot::init ("internal_slot_init")
+PanickingKinds == {"init_slot", "init", "init_internal"}
+TryKinds == {"try_init_slot", "slot_init", "try_init", "try_init_internal", "internal_slot_init"}
+KindsFor(target) ==
+    CASE target = "fresh" -> {"try_init_slot", "init_slot", "slot_init"}
+      [] target = "shared" -> {"try_init", "init"}
+      [] target = "internal" -> {"try_init_internal", "init_internal", "internal_slot_init"}
+      [] OTHER -> {}
+
 RetOf(k, res) ==
-    IF k = "init_slot" THEN (IF res = "won" THEN "ok" ELSE "panic")
+    IF k \in PanickingKinds THEN (IF res = "won" THEN "ok" ELSE "panic")
     ELSE (IF res = "won" THEN "some" ELSE "nil")
 
 InitRet(i, r) ==
@@ -195,7 +210,7 @@ ExactlyOneWinner ==
     AllReturned =>
         /\ Cardinality(Winners) = 1
         /\ \A i \in Inits : ipc[i] = "returned" =>
-              iret[i] \in (IF ikind[i] = "init_slot" THEN {"ok", "panic"} ELSE {"some", "nil"})
+              iret[i] \in (IF ikind[i] \in PanickingKinds THEN {"ok", "panic"} ELSE {"some", "nil"})
 
 \* no observation is ever answered by a configuration whose initialiser reported failure
 LosersNeverReceive ==
